@@ -88,10 +88,10 @@ Qed.
 
 (* ---------------------------------------------------------------- from_dict (to_dict s) *)
 
-Lemma ct_from_to : forall repaired s d, wf_ct s -> ct_to_doc s = Some d ->
+Lemma ct_from_to : forall repaired s d, wf_ct s -> ct_to_doc_objects s = Some d ->
   ct_from_doc_gen repaired d = Some (reloaded_of repaired s).
 Proof.
-  intros repaired s d (Hw & Hsegs & Htm & Ham & Hsi & Hproc) Hd. unfold ct_to_doc in Hd.
+  intros repaired s d (Hw & Hsegs & Htm & Ham & Hsi & Hproc) Hd. unfold ct_to_doc_objects in Hd.
   destruct (opt_all (map seg_doc (ct_segments s))) as [segs|] eqn:Esegs; [|discriminate]. cbn [bind] in Hd.
   destruct (lookup_doc (ct_segments s) (ct_mapping s)) as [lk|]; [|discriminate]. cbn [bind] in Hd.
   destruct (warns_doc (ct_warnings s)) as [ws|] eqn:Ews; [|discriminate]. cbn [bind] in Hd.
@@ -202,34 +202,49 @@ Qed.
 
 Lemma ct_to_doc_with_unc : forall s u, map (fun kv => (ukey_string (fst kv), snd kv)) u =
                                        map (fun kv => (ukey_string (fst kv), snd kv)) (ct_unc s) ->
-  ct_to_doc (with_unc s u) = ct_to_doc s.
-Proof. intros s u H. unfold ct_to_doc, with_unc. cbn. rewrite H. reflexivity. Qed.
+  ct_to_doc_objects (with_unc s u) = ct_to_doc_objects s.
+Proof. intros s u H. unfold ct_to_doc_objects, with_unc. cbn. rewrite H. reflexivity. Qed.
 
 (* with the proposed serialiser the reloaded model writes the very same document *)
 Lemma ct_reserialise_repaired : forall r s, wf_ct s -> Forall (fun kv => canonical (fst kv)) (ct_unc s) ->
-  ct_to_doc_repaired (reloaded_of r s) = ct_to_doc s.
+  ct_to_doc (reloaded_of r s) = ct_to_doc_objects s.
 Proof.
-  intros r s Hwf Hk. unfold ct_to_doc_repaired. rewrite (relax_reloaded r s Hwf). apply ct_to_doc_with_unc.
+  intros r s Hwf Hk. unfold ct_to_doc. rewrite (relax_reloaded r s Hwf). apply ct_to_doc_with_unc.
   rewrite map_map. cbn [fst snd]. induction (ct_unc s) as [|[k v] u IH]; [reflexivity|].
   inversion Hk as [|? ? Hk1 Hk2]; subst. cbn [map fst snd]. rewrite (ukey_string_read r k Hk1), (IH Hk2). reflexivity.
 Qed.
 
 (* as coded, a reloaded model with metrics cannot be written at all *)
-Lemma ct_reserialise_fails : forall r s x l, ct_totals s = MNative (x :: l) -> ct_to_doc (reloaded_of r s) = None.
+Lemma ct_reserialise_fails : forall r s x l, ct_totals s = MNative (x :: l) -> ct_to_doc_objects (reloaded_of r s) = None.
 Proof.
-  intros r s x l H. unfold ct_to_doc.
+  intros r s x l H. unfold ct_to_doc_objects.
   destruct (opt_all (map seg_doc (ct_segments (reloaded_of r s)))); [|reflexivity]. cbn [bind].
   destruct (lookup_doc (ct_segments (reloaded_of r s)) (ct_mapping (reloaded_of r s))); [|reflexivity]. cbn [bind].
   destruct (warns_doc (ct_warnings (reloaded_of r s))); [|reflexivity]. cbn [bind].
   unfold reloaded_of at 1. cbn [ct_totals]. rewrite H. reflexivity.
 Qed.
 
+(* on a fitted state the two serialisers agree (nothing to relax) *)
+Lemma relax_native : forall s, wf_ct s -> relax s = s.
+Proof.
+  intros s (Hw & Hsegs & Htm & Ham & _ & _). destruct s as [st me segs pt mp pr oc ob ub sty unc ws md se tm am].
+  unfold relax. cbn in *.
+  assert (E : map (fun g => {| sg_name := sg_name g; sg_formula := sg_formula g; sg_params := sg_params g;
+                               sg_warnings := relax_warns (sg_warnings g) |}) segs = segs).
+  { induction segs as [|g l IH]; [reflexivity|]. inversion Hsegs as [|? ? Hg Hl]; subst. cbn [map]. rewrite (IH Hl). f_equal.
+    destruct g as [n f p w]. cbn in *. destruct w; [reflexivity | contradiction]. }
+  rewrite E. destruct ws; [|contradiction]. destruct tm as [|[|x1 l1]|l1]; try contradiction; destruct am as [|[|x2 l2]|l2]; try contradiction; reflexivity.
+Qed.
+
+Lemma ct_to_doc_native : forall s, wf_ct s -> ct_to_doc s = ct_to_doc_objects s.
+Proof. intros s H. unfold ct_to_doc. rewrite (relax_native s H). reflexivity. Qed.
+
 (* ---------------------------------------------------------------- prediction as a function of its inputs *)
 Section Predict.
 Variable data result : Type.
 Variable predict_fn : ct_inputs -> data -> result.
 
-Lemma ct_predict_restored_l : forall r s d, wf_ct s -> ct_to_doc s = Some d ->
+Lemma ct_predict_restored_l : forall r s d, wf_ct s -> ct_to_doc_objects s = Some d ->
   exists s', ct_from_doc_gen r d = Some s' /\ forall x, predict_fn (ct_inputs_of s') x = predict_fn (ct_inputs_of s) x.
 Proof.
   intros r s d Hwf Hd. exists (reloaded_of r s). split; [apply ct_from_to; assumption|].
